@@ -86,8 +86,10 @@ func vfC07ConcRound(t *testing.T, res *vfh.Result, round int, kind string) {
 				}
 				openSeq := r.l.seq.Add(1)
 				ctx, cancel := context.WithTimeout(context.Background(), 20*time.Second)
-				s, err := r.a.h.NewStream(ctx, r.b.id, req...)
+				arg, check := vfC07Owned(r.rep, "NewStream", req)
+				s, err := r.a.h.NewStream(ctx, r.b.id, arg...)
 				cancel()
+				check()
 				if err != nil {
 					res.Inc("conc_open_failed", 1)
 					continue
